@@ -379,8 +379,8 @@ def real_part(R):
                 continue
             case = {"part": "real", "plan": list(plan), "retries": retries, "closed_port": closed, "timeout": 0.06}
             verdict = None
-            for attempt in range(2):  # replay before verdict
-                res, leaked, received, rw = run_real(plan, retries, 0.06 * (1 + 2 * attempt), closed)
+            for attempt, tmo in enumerate((0.06, 0.3, 1.5)):  # replay (with more generous timing) before verdict
+                res, leaked, received, rw = run_real(plan, retries, tmo, closed)
                 verdict = judge_real(R, case, plan, retries, closed, res, leaked, received, rw)
                 if verdict != "ambiguous":
                     break
